@@ -44,6 +44,9 @@ def _run(prop, model):
     try:
         mod, ctx = run_property(prop, "quick", model=model, quiet=True)
     except AnalysisError as e:
+        from sa.repo import PlumbingViolation
+        if isinstance(e, PlumbingViolation):
+            return "violation", str(e)[:140]      # the CLI reports it as a VIOLATION
         return "error", str(e)[:140]
     except Exception as e:      # a crash of the analyser is an error too
         return "error", "crash " + repr(e)[:140]
